@@ -707,7 +707,9 @@ class ConnectionChoiceNode(ChoiceNode):
         for node in nodes:
             deriving_nodes = []
             if isinstance(node, ConnectorDegreeGroupingNode):
-                for prev_node in graph.predecessors(node):
+                # Only the grouped connectors (linked by derivation edges), not e.g. connectors excluded from the group
+                for in_edge in iter_in_edges(graph, node, edge_type=EdgeType.DERIVES):
+                    prev_node = in_edge[0]
                     if isinstance(prev_node, ConnectorNode):
                         deriving_nodes.append(prev_node)
             node_derivations[node] = deriving_nodes
